@@ -25,6 +25,50 @@ fn pick_b(ctx: &mut Ctx) -> u64 {
     }
 }
 
+/// A *saturated* sketch (every register non-zero) that then was the receiver of a merge, or was
+/// rebuilt from its registers, or went through serialisation, is cleared and re-used with low-rank
+/// hashes: it must behave like a fresh one (any lower bound cached over the registers is void).
+/// Uses instances 20-23 under the current hasher.
+pub fn hll_saturated_lifecycle(ctx: &mut Ctx, b: u64) {
+    let m = 1u64 << b;
+    ctx.op(format!("hll.new 20 {}", b));
+    // ranks >= 2 everywhere first (no register ever holds 1), then a full pass of rank >= 1
+    for j in 0..m {
+        let sh = 62 - ctx.rng.below(3);
+        ctx.op(format!("hll.addh 20 {}", (1u64 << sh) | j));
+    }
+    ctx.op(format!("hll.addmany 20 {} {}", ctx.rng.clone().next(), 30 * m));
+    ctx.op("hll.regs 20".into());
+    match ctx.rng.below(3) {
+        0 => {
+            ctx.op(format!("hll.new 21 {}", b));
+            ctx.op("hll.merge 21 20".into());
+        }
+        1 => {
+            ctx.op("hll.rebuild 20 21".into());
+        }
+        _ => {
+            let doc = ctx.op("hll.ser 20".into());
+            ctx.op(format!("hll.deser 21 {}", doc));
+        }
+    }
+    ctx.op("hll.eq 21 20".into());
+    ctx.op("hll.clear 21".into());
+    ctx.op("hll.regs 21".into());
+    ctx.op(format!("hll.new 22 {}", b));
+    for _ in 0..(2 * m).min(64) {
+        // mostly rank 1 and 2 (the lowest ranks there are)
+        let top = 1u64 << (63 - ctx.rng.below(2));
+        let low = ctx.rng.below(m);
+        let v = ((top | (ctx.rng.next() >> 2)) & !(m - 1)) | low;
+        ctx.op(format!("both hll.addh 21 22 {}", v));
+    }
+    ctx.op("both hll.regs 21 22".into());
+    ctx.op("both hll.count 21 22".into());
+    ctx.op("hll.eq 21 22".into());
+    ctx.stat("hll.saturated.lifecycle", 1);
+}
+
 pub fn gen_c17(ctx: &mut Ctx) {
     let ncases = 60 * ctx.tier_scale;
     for c in 0..ncases {
@@ -116,6 +160,13 @@ pub fn gen_c17(ctx: &mut Ctx) {
             let body = toks[2..].join(" ");
             ctx.op(format!("hll.with 4 {} {}", b, body));
             ctx.op("hll.regs 4".into());
+            ctx.op("hll.eq 4 1".into());
+            // cleared and used again: still 2^b registers
+            ctx.op("hll.clear 4".into());
+            ctx.op("hll.regs 4".into());
+            ctx.op(format!("hll.addh 4 {}", ctx.rng.clone().next()));
+            ctx.op("hll.regs 4".into());
+            ctx.op("hll.count 4".into());
             ctx.op(format!("hll.with 5 {} {}", b + 1, body));
             ctx.op(format!("hll.with 6 {} {} 0", b, body));
             ctx.stat("with.rejects", 2);
@@ -180,6 +231,9 @@ pub fn gen_c17(ctx: &mut Ctx) {
         ctx.op("hll.eq 1 10".into());
         ctx.op("hll.count 10".into());
         ctx.op("hll.count 1".into());
+        if b <= 6 && ctx.rng.chance(1, 2) {
+            hll_saturated_lifecycle(ctx, b);
+        }
         // the very first add after construction, clear and reconstruction is a boundary hash
         {
             let h0 = *ctx.rng.pick(&[u64::MAX, 0u64, u64::MAX - 1, 1u64 << 63, (1u64 << b) - 1, u64::MAX >> 1]);
@@ -254,9 +308,40 @@ pub fn oracle_c17(ops: &[String], ans: &[String]) -> Vec<(usize, String)> {
     let mut regs_seen: HashMap<u64, String> = HashMap::new();
     let mut counts: HashMap<(u64, Vec<u64>), String> = HashMap::new();
     let mut hashers: HashMap<u64, (u64, u64, u32, u64)> = HashMap::new();
+    let mut with_b: HashMap<u64, (u64, (u64, u64, u32, u64))> = HashMap::new();
+    // `both <op> i j args` with answer `a | b` is `<op> i args` -> a followed by `<op> j args` -> b
+    let mut flat: Vec<(usize, String, String)> = vec![];
     for (i, (o, a)) in ops.iter().zip(ans.iter()).enumerate() {
         let t: Vec<&str> = o.split_whitespace().collect();
+        if t[0] == "both" && t.len() >= 4 {
+            let parts: Vec<&str> = a.splitn(2, " | ").collect();
+            if parts.len() == 2 {
+                flat.push((i, format!("{} {} {}", t[1], t[2], t[4..].join(" ")), parts[0].to_string()));
+                flat.push((i, format!("{} {} {}", t[1], t[3], t[4..].join(" ")), parts[1].to_string()));
+                continue;
+            }
+        }
+        flat.push((i, o.clone(), a.clone()));
+    }
+    for (i, o, a) in flat.iter() {
+        let i = *i;
+        let t: Vec<&str> = o.split_whitespace().collect();
         match t[0] {
+            "hll.addmany" => {
+                let id: u64 = t[1].parse().unwrap();
+                if let Some((_, s)) = sets.get_mut(&id) {
+                    let mut sm = crate::script::SplitMix(t[2].parse().unwrap());
+                    for _ in 0..t[3].parse::<u64>().unwrap() {
+                        s.insert(sm.next());
+                    }
+                }
+            }
+            "hll.deser" => {
+                // the document decides what the instance is; this oracle does not parse it
+                let id: u64 = t[1].parse().unwrap();
+                sets.remove(&id);
+                hashers.remove(&id);
+            }
             "hasher" => {
                 bh = ScriptBH {
                     mul: t[1].parse().unwrap(),
@@ -289,6 +374,9 @@ pub fn oracle_c17(ops: &[String], ans: &[String]) -> Vec<(usize, String)> {
                 let id: u64 = t[1].parse().unwrap();
                 if let Some((_, s)) = sets.get_mut(&id) {
                     s.clear();
+                } else if let Some((b, h)) = with_b.get(&id) {
+                    sets.insert(id, (*b, BTreeSet::new()));
+                    hashers.insert(id, *h);
                 }
             }
             "hll.merge" => {
@@ -379,6 +467,16 @@ pub fn oracle_c17(ops: &[String], ans: &[String]) -> Vec<(usize, String)> {
                 let valid = (4..=18).contains(&b) && (t.len() - 3) as u64 == (1u64 << b);
                 if valid != (a == "ok") {
                     fails.push((i, format!("with_registers accept/reject mismatch: {}", a)));
+                }
+                // arbitrary registers are not a set of hashes; the instance becomes known again
+                // (as the empty sketch of precision b) when it is cleared
+                let id: u64 = t[1].parse().unwrap();
+                sets.remove(&id);
+                hashers.remove(&id);
+                if a == "ok" {
+                    with_b.insert(id, (b, (bh.mul, bh.add, bh.sh, bh.seed)));
+                } else {
+                    with_b.remove(&id);
                 }
             }
             "hll.regs" => {
